@@ -372,6 +372,33 @@ J_time_pick(e) ==
        ELSE IF p.k # "time" THEN << <<"kind", p.k>> >>
        ELSE V("class", p.cls = "Time", "Time") \o V("choice", p.w \in okc, okc))
 
+\* ---- C14 -----------------------------------------------------------------------------
+\* pickle / copy / deepcopy are stuttering steps on the abstraction
+SameDT(x, y) == /\ y.k = "dt" /\ y.cls = x.cls /\ ZRef(y.z) = ZRef(x.z) /\ y.w = x.w /\ y.off = x.off
+                /\ (x.z.n \in {"naive", "?"} \/ InstOf(DT(y.z, y.w, y.f)) = InstOf(DT(x.z, x.w, x.f)))
+SamePoint(x, y) == IF x.k = "dt" THEN SameDT(x, y) ELSE (y.k = x.k /\ y.cls = x.cls /\ y.w = x.w)
+DurFields(p) == <<p.r3, p.years, p.months, p.weeks, p.remaining_days, p.hours, p.minutes, p.remaining_seconds,
+                  p.microseconds, p.invert>>
+J_copy(e) ==
+  LET x == e.pre[1]  p == e.post
+      lab == <<x.k, e.a.how>> \o (IF x.k = "dt" THEN <<ClassOf(DT(x.z, x.w, x.f)), B(x.f = 1)>>
+                                  ELSE IF x.k = "dur" THEN <<B(x.years # 0 \/ x.months # 0), B(x.weeks # 0)>>
+                                  ELSE IF x.k = "iv" THEN <<B(x.abs), B(x.invert = 1), x.a.k>> ELSE <<>>)
+  IN R(lab,
+       IF p.k = "exc" THEN << <<"unexpected-exception", p.names>> >>
+       ELSE V("type", p.same_type /\ p.k = x.k /\ p.cls = x.cls, x.cls)
+            \o (CASE x.k = "dt" -> (IF p.k = "dt" THEN V("fields", ZRef(p.z) = ZRef(x.z) /\ p.w = x.w, x.w)
+                                                     \o V("instant-offset", SameDT(x, p), <<x.off, x.f>>) ELSE <<>>)
+                  [] x.k \in {"date", "time"} -> (IF p.k = x.k THEN V("fields", p.w = x.w, x.w) \o V("equal", p.eq, TRUE) ELSE <<>>)
+                  [] x.k = "dur" -> (IF p.k = "dur" THEN V("components", DurFields(p) = DurFields(x), DurFields(x))
+                                                       \o V("equal", p.eq, TRUE) ELSE <<>>)
+                  [] x.k = "iv" -> (IF p.k = "iv" THEN V("endpoints", SamePoint(x.a, p.a) /\ SamePoint(x.b, p.b), <<x.a.w, x.b.w>>)
+                                                      \o V("absolute", p.abs = x.abs, x.abs)
+                                                      \o V("components", DurFields(p) = DurFields(x), DurFields(x))
+                                                      \o V("equal", p.eq, TRUE) ELSE <<>>)
+                  [] x.k = "tz" -> (IF p.k = "tz" THEN V("zone", ZRef(p.z) = ZRef(x.z) /\ p.name = x.name, x.z) ELSE <<>>)
+                  [] OTHER -> << <<"unknown-kind", x.k>> >>))
+
 \* ---- C15 -----------------------------------------------------------------------------
 J_year_prims(e) == LET y == e.a.y IN
    R(<<B(IsLeap(y)), B(IsLongYear(y))>>,
@@ -425,6 +452,7 @@ Judge(e) == CASE e.op = "in_tz" -> J_in_tz(e)
               [] e.op = "time_add" -> J_time_add(e)
               [] e.op = "time_diff" -> J_time_diff(e)
               [] e.op \in {"time_closest", "time_farthest"} -> J_time_pick(e)
+              [] e.op = "copy" -> J_copy(e)
               [] e.op = "year_prims" -> J_year_prims(e)
               [] e.op = "year_weekdays" -> J_year_weekdays(e)
               [] e.op = "year_getters" -> J_year_getters(e)
